@@ -19,7 +19,7 @@ theorem cmPush_ne (rs : List Item) (cs : List Cps) (h : rs ≠ []) : cmPush rs c
   | cons x t ih => simp only [cmPush]; apply ih; simp
 
 theorem Simple.rpush_ne (ns : NsMap) (s : Simple) (rs : List Item) : s.rpush ns rs ≠ [] := by
-  cases s <;> simp [Simple.rpush, Attr.rpush]
+  cases s <;> simp [Simple.rpush, Attr.rpush, funcPush]
 
 theorem restPush_ne (ns : NsMap) (l : List (List Cps × Simple)) (rs : List Item) (h : rs ≠ [] ∨ l ≠ []) :
     restPush ns rs l ≠ [] := by
